@@ -1,6 +1,6 @@
 (* GENERATED ONCE by tools/pin.py from Properties/C13.v and committed: the pinned statements. *)
 From VF.Properties Require C13.
-From VF Require Import Base Gen_Errors ErrSpec Status Status_proofs Contrib ContribSpec Contrib_proofs.
+From VF Require Import Base Gen_Errors ErrSpec Status Status_proofs Contrib ContribSpec Contrib_proofs Grammar MessageSpec ContribMeaning ContribMeaning_proofs.
 Open Scope N_scope.
 
 
@@ -37,3 +37,10 @@ Check (VF.Properties.C13.C13_full_stack_refines : forall msgs mav us,
 Check (VF.Properties.C13.C13_full_stack_refines_iff : forall d,
   (forall mav us, forallb renderable us = true -> dev_message d mav (units_text us) = Val (op_message d mav us))
   <-> queue_printable d = true).
+Check (VF.Properties.C13.C13_full_stack_all_messages : forall ms (m : msg) (mav : bool) (us : list sop),
+  wf_msg m = true -> message_ops m = Some us ->
+  dev_message (session_msgs dev_init ms) mav (render_msg m)
+  = Val (with_stray m (op_message (session_msgs dev_init ms) mav us))).
+Check (VF.Properties.C13.C13_full_stack_all_messages_exact : forall (m : msg) (mav : bool) (d : dev) (us : list sop),
+  wf_msg m = true -> queue_printable d = true -> message_ops m = Some us ->
+  (dev_message d mav (render_msg m) = Val (op_message d mav us) <-> stray_separator m = false)).
